@@ -310,6 +310,15 @@ def run_property(pid, tier='quick', seed=0, only=None, jobs=None):
                 if dedup in seen_fail:
                     continue
                 seen_fail.add(dedup)
+                rp0 = o.get('replay') or {}
+                if o['kind'] == 'loop' and not rp0.get('confirmed'):
+                    # An auxiliary loop obligation (invariant at entry / preserved / variant) that fails WITHOUT a failing
+                    # input of the real code means "this invariant is not inductive for this code" - the contract does not
+                    # fit, which is undecided, not a violation.  (With a replayed failing input it is reported as one.)
+                    undecided.append('%s: %s: loop contract obligation not discharged and no failing input found (%s)'
+                                     % (name, o['label'], (o.get('note') or '')[:120]))
+                    n_obl -= 1
+                    continue
                 violations.append((name, r['functions'], o, o.get('replay') or dict(confirmed=False, call='(not replayed)', observed=''), wk))
         if len(violations) == nviol_before:
             errors.extend(sorted(set(guard_errors)))
